@@ -32,6 +32,7 @@ fn main() {
         "pin" => aux::run_pin(&args),
         "integrity" => aux::run_integrity(&args),
         "matrix" => aux::run_matrix(&args),
+        "xhunt" => aux::run_xhunt(&args),
         "rng" => aux::run_rng(&args),
         "world" => cipher::run_world(&args),
         "stream" => cipher::run_stream(&args),
